@@ -52,6 +52,11 @@ type c12Env struct {
 	enc     jose.Encrypter
 	macToID map[string]string // base64url(mac(atom)) -> atom label
 	docToID map[string]string // base58(mac(key)[:16]) -> key label
+	// ciphertexts handed to the provider in this run: every write is encrypted afresh, the same ciphertext twice tells
+	// the provider that two writes carry the same data
+	seenJWE  map[string]int
+	countJWE bool
+	reused   bool
 }
 
 var c12Shared *c12Env
@@ -251,6 +256,12 @@ func (e *c12Env) canonDoc(v []byte) string {
 	pt, err := e.dec.Decrypt(jwe)
 	if err != nil {
 		return "raw(" + hex.EncodeToString(v) + ")"
+	}
+	if e.seenJWE != nil && e.countJWE {
+		e.seenJWE[jwe.Ciphertext+"|"+jwe.IV]++
+		if e.seenJWE[jwe.Ciphertext+"|"+jwe.IV] > 1 {
+			e.reused = true
+		}
 	}
 	// the plaintext is only reachable with the decryption key: it is reported as enc{...}
 	sum := sha256.Sum256(pt)
@@ -461,10 +472,18 @@ func c12Run(input string) string {
 		c11Apply(st, c12Translate(op))
 	}
 	var canon []string
+	e.seenJWE, e.reused = map[string]int{}, false
 	for _, c := range log {
+		// only what is WRITTEN counts (a document read back and looked at again is the same ciphertext, of course)
+		e.countJWE = c.method == "Put" || c.method == "Batch"
 		canon = append(canon, e.canonCall(c))
 	}
-	return strings.Join(canon, " ; ") + " || scan=" + c12Scan(log, canon)
+	e.countJWE = false
+	scan := c12Scan(log, canon)
+	if scan == "clean" && e.reused {
+		scan = "LEAK the same ciphertext was written twice (equal data is recognisable)"
+	}
+	return strings.Join(canon, " ; ") + " || scan=" + scan
 }
 
 func c12Gen(r *Rng, tier string) []string {
@@ -482,6 +501,18 @@ func c12Gen(r *Rng, tier string) []string {
 				op = c11GenOp(r, false)
 			}
 			ops = append(ops, op)
+		}
+		if r.N(3) == 0 {
+			// the same write once more (same key, value and tags)
+			var puts []int
+			for x, o := range ops {
+				if strings.HasPrefix(o, "put ") || strings.HasPrefix(o, "batch ") {
+					puts = append(puts, x)
+				}
+			}
+			if len(puts) > 0 {
+				ops = append(ops, ops[puts[r.N(len(puts))]])
+			}
 		}
 		out = append(out, modes[i%4]+"|"+strings.Join(ops, ";"))
 	}
